@@ -14,10 +14,10 @@ import vlib
 from checks import lifecycle_common as lc
 from checks import reapers_common as rc
 
-NSIM = {"quick": 60, "thorough": 1500}
+NSIM = {"quick": 150, "thorough": 1500}
 PER_PREFIX = {"quick": 4, "thorough": 6}
 MC = {"quick": ["Reapers_MC.cfg", "Reapers_MCLive.cfg", "Reapers_MCGrid.cfg", "Reapers_MCCluster.cfg"],
-      "thorough": ["Reapers_MC.cfg", "Reapers_MCLive.cfg", "Reapers_MCGrid.cfg", "Reapers_MCCluster.cfg", "Reapers_MCFull.cfg"]}
+      "thorough": ["Reapers_MCFull.cfg", "Reapers_MCDeep.cfg", "Reapers_MCGrid2.cfg", "Reapers_MCLive.cfg", "Reapers_MCCluster.cfg"]}
 
 
 def lifecycle_liveness_behaviours(run, rng):
